@@ -6,7 +6,7 @@ from lib.coqterm import cbytes
 
 ID = "C09"
 QUICK_N = 1500
-THOROUGH_N = 30000
+THOROUGH_N = 20000
 SHARD = 250
 COQ_PRELUDE = ""
 RULE = ("a case is a layer script (the commands the top layer answers to its n-th event: OpenConnection to one of 3 addresses "
@@ -21,7 +21,8 @@ TRUSTED = ["Coq 8.16.1 kernel; vm_compute for case evaluation",
            "hand model of ConnectionHandler (handle_client, open_connection, handle_connection, close_connection, hook_task, "
            "server_event, on_timeout) and of CPython 3.12 Task.cancel / asyncio.Semaphore / asyncio.wait wake-up semantics, tied by correspondence",
            "harness: coroutine wrapper installed through loop.set_task_factory records which task the loop steps (send/throw); "
-           "fake StreamReader/StreamWriter/asyncio.open_connection; scripted top layer"]
+           "fake StreamReader/StreamWriter/asyncio.open_connection; scripted top layer",
+           "byte encoding of cases (harness coq_case) and its decoder (Corr/C09.v decode; any decoding failure counts as a disagreement)"]
 ASSUMPTIONS = ["the model lets ANY ready task run next; the real loop is FIFO, so theorems cover a superset of CPython schedules",
                "writer.drain() never suspends in the harness (it returns or raises OSError at once): interleavings inside drain_writers are not explored",
                "handle_client itself is never cancelled from outside; RequestWakeup timers, UDP transports, eager task factories, "
@@ -662,6 +663,9 @@ def oracle(case, obs):
                 else:
                     key = "socket-left-open"
                 v.append({"key": key, "what": f"handle_client returned but connection {c} still has an open writer in transports"})
+            elif has_w and closed:
+                v.append({"key": "transport-entry-left", "what": f"handle_client returned but transports still holds connection {c} "
+                          "(writer closed, entry never popped)"})
         for t in sorted(leftover):
             if t[0] == "c" and t[1] != 0 and t[1] in late and not any(x["key"] == "open-after-teardown" for x in v):
                 v.append({"key": "open-after-teardown", "what": f"connection {t[1]} task outlives handle_client"})
